@@ -31,6 +31,9 @@ type Net struct {
 	maxDelay  time.Duration
 	reorderPp int32 // per mille of batches swapped with the next one of the connection
 	stats     NetStats
+	// wire mode (wire.go)
+	wireFaults WireFaults
+	wire       WireStats
 }
 
 // NetStats counts what the network did.
